@@ -178,6 +178,9 @@ def describe_exc(exc):
 def unexpected(exc, where=''):
     """Turn an exception raised by the code under test into a Violation."""
     rc = root_cause(exc)
+    if type(rc).__name__ == 'HarnessUnsupported':
+        # the code under test uses something the harness' shims do not model: a harness limitation (exit 2), never a violation
+        raise rc
     sig = 'unexpected-exception:%s@%s' % (type(rc).__name__, inner_frame(rc) or inner_frame(exc) or '?')
     return Violation(sig, {'where': where, 'error': describe_exc(exc)})
 
